@@ -220,7 +220,7 @@ var model = porcupine.Model{
 		case "api-validate":
 			return apiValidateOK(i, o), s
 		case "api-apply":
-			return apiApplyStep(s, i, o, false)
+			return apiApplyStep(s, i, o, relaxNone)
 		}
 		if i.Kind == "applyif" && i.ExpKey != s.C {
 			return o.Code == "precondition_failed" && o.VerKey == s.C, s
@@ -419,6 +419,7 @@ var clock atomic.Int64
 // ~90 ms under -race: key generation); the state a history starts from is whatever the previous
 // one left, revealed by the sequential prefix (snapshot + route read).
 func runHistory(r *lib.Run, rng *rand.Rand, hid string, g *gate.Gate, svc *apiClient, shape string, bulk int) (sig string, nOps int, bad bool) {
+	defer prof("history-"+shape, time.Now())
 	scripts := genScripts(rng, shape, bulk)
 	seedBase := rng.Int63()
 	init := initialConfig()
@@ -467,6 +468,8 @@ func runHistory(r *lib.Run, rng *rand.Rand, hid string, g *gate.Gate, svc *apiCl
 
 	var wg sync.WaitGroup
 	start := make(chan struct{})
+	var ready sync.WaitGroup
+	ready.Add(len(scripts))
 	for ci := range scripts {
 		wg.Add(1)
 		go func(ci int) {
@@ -479,8 +482,31 @@ func runHistory(r *lib.Run, rng *rand.Rand, hid string, g *gate.Gate, svc *apiCl
 					olderVer, lastVer = lastVer, v
 				}
 			}
+			// candidates and API payloads that do not depend on what the client sees at run time are
+			// built in front of the barrier: building a large document must not delay the opening
+			// move of an api-race history
+			type prep struct {
+				cd      cand
+				payload string
+				isPatch bool
+			}
+			prepared := map[int]prep{}
+			tPrep := time.Now()
+			for oi, op := range scripts[ci] {
+				switch {
+				case op.Class == "identical" || op.Class == "":
+				case op.Kind == "api-apply" || op.Kind == "api-validate":
+					cd := mkCand(crng, op.Class, op.UID, op.Bulk)
+					pl, ip := apiPayload(crng, cd, op.Form)
+					prepared[oi] = prep{cd, pl, ip}
+				case op.Kind == "apply" || op.Kind == "applyif":
+					prepared[oi] = prep{cd: mkCand(crng, op.Class, op.UID)}
+				}
+			}
+			prof("prepare", tPrep)
+			ready.Done()
 			<-start
-			for _, op := range scripts[ci] {
+			for oi, op := range scripts[ci] {
 				for y := 0; y < op.Yields; y++ {
 					runtime.Gosched()
 				}
@@ -492,7 +518,9 @@ func runHistory(r *lib.Run, rng *rand.Rand, hid string, g *gate.Gate, svc *apiCl
 					see(v)
 				case "api-get":
 					c0 := clock.Add(1)
+					tG := time.Now()
 					snap, ver, code := svc.get()
+					prof("api-get", tG)
 					c1 := clock.Add(1)
 					out := opOut{Version: ver, Code: code}
 					if snap != nil {
@@ -503,16 +531,18 @@ func runHistory(r *lib.Run, rng *rand.Rand, hid string, g *gate.Gate, svc *apiCl
 					add(rec{client: ci, call: c0, ret: c1, in: opIn{Kind: "api-get"}, out: out}, nil)
 				case "api-apply", "api-validate":
 					var cd cand
+					var payload string
+					var isPatch bool
 					if op.Class == "identical" {
 						src := lastSnap
 						if src == nil {
 							src = initialConfig()
 						}
 						cd = cand{cfg: src, class: clsRoute, key: keyOf(src), rkey: keyOf(src.Config.Lite.Routes), desc: "identical-to-last-seen"}
+						payload, isPatch = apiPayload(crng, cd, op.Form)
 					} else {
-						cd = mkCand(crng, op.Class, op.UID, op.Bulk)
+						cd, payload, isPatch = prepared[oi].cd, prepared[oi].payload, prepared[oi].isPatch
 					}
-					payload, isPatch := apiPayload(crng, cd, op.Form)
 					in := opIn{Kind: op.Kind, Form: op.Form, Cand: cd.key, CandR: cd.rkey, Class: cd.class, Desc: cd.desc}
 					switch op.Form {
 					case "patch-noop":
@@ -541,7 +571,9 @@ func runHistory(r *lib.Run, rng *rand.Rand, hid string, g *gate.Gate, svc *apiCl
 					}
 					in.ExpLabel = op.Exp
 					c0 := clock.Add(1)
+					tA := time.Now()
 					code, ver := svc.apply(payload, isPatch, in.ExpRaw)
+					prof(fmt.Sprintf("api-apply-%s-bulk%v", op.Form, op.Bulk > 0), tA)
 					c1 := clock.Add(1)
 					see(ver)
 					var cp *cand
@@ -563,7 +595,7 @@ func runHistory(r *lib.Run, rng *rand.Rand, hid string, g *gate.Gate, svc *apiCl
 						}
 						cd = cand{cfg: src, class: clsRoute, key: keyOf(src), rkey: keyOf(src.Config.Lite.Routes), desc: "identical-to-last-seen"}
 					} else {
-						cd = mkCand(crng, op.Class, op.UID)
+						cd = prepared[oi].cd
 					}
 					in := opIn{Kind: op.Kind, Cand: cd.key, CandR: cd.rkey, Class: cd.class, Desc: cd.desc}
 					var res gate.LiveConfigResult
@@ -600,6 +632,7 @@ func runHistory(r *lib.Run, rng *rand.Rand, hid string, g *gate.Gate, svc *apiCl
 			}
 		}(ci)
 	}
+	ready.Wait()
 	close(start)
 	if ok, _ := lib.Returns(30*time.Second, wg.Wait); !ok {
 		if blk, proven := lib.SelfDeadlockProof(lib.Goroutines(), "gate.(*Gate)"); proven {
@@ -760,7 +793,9 @@ func runHistory(r *lib.Run, rng *rand.Rand, hid string, g *gate.Gate, svc *apiCl
 	}
 	m := model
 	m.Init = func() any { return state{initKey, initR} }
+	tP := time.Now()
 	res, _ := porcupine.CheckOperationsVerbose(m, ops, 20*time.Second)
+	prof("porcupine", tP)
 	r.Count("histories_checked_by_porcupine", 1)
 	switch res {
 	case porcupine.Illegal:
@@ -959,6 +994,8 @@ func TestC35(t *testing.T) {
 		}(w)
 	}
 	wg.Wait()
+	profDump()
+	r.Set("api_yaml_documents_assembled_from_initial_document_and_routes_selftest_ok", yamlSplice().ok)
 	r.Set("operations_recorded", totalOps.Load())
 	r.Set("distinct_interleaving_signatures", len(sigs))
 	verMu.Lock()
